@@ -248,10 +248,27 @@ func init() {
 						sRes = v
 					}
 				}
-				if fm := c.footerStoreIn(nw, "chunkMode"); fm == nil || fm != sMode {
+				// (or a method of the builder records them from the builder's own fields, which
+				// newWithChunkMode set from its parameters)
+				builderStore := func(field, want string) bool {
+					ft := c.NamedType("footer").Obj()
+					n := 0
+					for _, st := range c.census().fieldStores[fieldKey{ft, field}] {
+						rv := st.fn.Signature.Recv()
+						if rv == nil || namedOf(rv.Type()) == nil || namedOf(rv.Type()).Obj() != it {
+							continue
+						}
+						if exprSig(st.val, 0) != want {
+							return false
+						}
+						n++
+					}
+					return n > 0
+				}
+				if fm := c.footerStoreIn(nw, "chunkMode"); (fm == nil || fm != sMode) && !(fm == nil && sMode != nil && builderStore("chunkMode", ".chunkMode")) {
 					probs = append(probs, "newWithChunkMode does not record in footer.chunkMode the mode it gives the builder")
 				}
-				if fd := c.footerStoreIn(nw, "numDocs"); fd == nil || sRes == nil || exprSig(fd, 0) != "len("+exprSig(sRes, 0)+")" {
+				if fd := c.footerStoreIn(nw, "numDocs"); (fd == nil || sRes == nil || exprSig(fd, 0) != "len("+exprSig(sRes, 0)+")") && !(fd == nil && sRes != nil && builderStore("numDocs", "len(.results)")) {
 					probs = append(probs, "newWithChunkMode does not record len(results) of the batch it gives the builder in footer.numDocs")
 				}
 				if exprSig(a2, 0) != "len(.results)" {
